@@ -7,7 +7,9 @@
    whose item list ranges over ALL sequences (length lo..hi) over the slot's
    alphabet of items (segments+-, edges+-, nested paths+-, sets, an undefined
    identifier).  The item list of slot 1 can be cut into 1..3 consecutive
-   chunks = several lines with the same identifier; the lines arrive in the
+   chunks = several lines with the same identifier (families of kind "walks":
+   slot 1 ranges instead over every way of leaving elements out of every walk of
+   the graph with a bounded number of edges); the lines arrive in the
    order `perm` (identity / identity and reverse / every permutation) and carry
    the tag sets `tg` (disjoint, equal, contradictory ...).  `arr` is the
    arrangement of the group lines relative to the base graph (1 graph first,
@@ -41,9 +43,38 @@ NS    == Len(Fam.slots)
 VARIABLES s1, s2, s3, s4, cut, tg, perm, arr
 vars == <<s1, s2, s3, s4, cut, tg, perm, arr>>
 
+\* --- families of kind "walks": slot 1 ranges over the PRESENTATIONS of the walks of
+\* the graph: every strict walk with at most Fam.maxedges edges (built by following
+\* dovetails from every oriented segment), and every non-empty subsequence of it
+\* (elements left out = elements to be supplied) that still has a walk or is
+\* ambiguous -- the contiguous item lists of the quantifier, up to 2*maxedges+1 items
+RECURSIVE WalksUpTo(_)
+WalksUpTo(k) ==
+  IF k = 0 THEN {<<[id |-> Graph[i].name, o |-> o]>> : i \in {j \in DOMAIN Graph : Graph[j].rt = "S"}, o \in {"+", "-"}}
+  ELSE LET W == WalksUpTo(k - 1) IN
+       W \cup {w \o <<[id |-> Graph[p[1]].name, o |-> p[2]], ETo(Graph[p[1]], p[2])>> :
+                 w \in W, p \in {q \in EdgeIdxOf(Graph) \X {"+", "-"} : IsDovetail(Graph[q[1]])}}
+\* (filtered below: the edge must start where the walk ends)
+IsWalk(w) == \A i \in DOMAIN w : (i % 2 = 0) => EFrom(LineNamed(Graph, w[i].id), w[i].o) = w[i - 1]
+IdxOfItem(r) == CHOOSE i \in DOMAIN ItemT : ItemT[i] = r
+RECURSIVE SubSeqs(_)
+SubSeqs(w) == IF w = <<>> THEN {<<>>}
+              ELSE LET R == SubSeqs(Tail(w)) IN R \cup {<<Head(w)>> \o r : r \in R}
+Presentable(its) ==
+  LET D == Append(Graph, [rt |-> "O", name |-> "o", refs |-> its, f |-> <<>>, num |-> <<>>,
+                          tags |-> <<>>, tagn |-> <<>>, ovs |-> <<>>])
+      cp == CapturedPath(D, "o") IN
+  cp.ok \/ cp.kind = "ambiguous"
+Presentations ==
+  {[i \in DOMAIN its |-> IdxOfItem(its[i])] :
+     its \in {x \in UNION {SubSeqs(w) : w \in {v \in WalksUpTo(Fam.maxedges) : IsWalk(v)}} :
+                x # <<>> /\ Presentable(x)}}
+
 SeqsOf(k) ==
   LET sl == Fam.slots[k]
       A == Rng(sl.alph) IN
+  IF k = 1 /\ Fam.kind = "walks" THEN Presentations
+  ELSE
   {s \in UNION {[1..n -> A] : n \in sl.lo..sl.hi} :
        sl.must = <<>> \/ \E i \in DOMAIN s : s[i] \in Rng(sl.must)}
 SlotSet(k) == IF k <= NS THEN SeqsOf(k) ELSE {<<>>}
